@@ -49,16 +49,16 @@ type Opts struct {
 
 // Info describes what was generated (for coverage classes).
 type Info struct {
-	Kind      string
-	NGlyphs   int
-	CMap      string
-	Layout    string
-	Classes   []string
+	Kind    string
+	NGlyphs int
+	CMap    string
+	Layout  string
+	Classes []string
 	// a ligature chain (GSUB 4.1): rules on ChainInputs produce glyphs which
 	// are themselves components of further rules; ChainOutputs are the
 	// intermediate and final ligature glyphs
 	ChainInputs, ChainOutputs []glyph.ID
-	CodeToGID map[rune]glyph.ID
+	CodeToGID                 map[rune]glyph.ID
 }
 
 var sampleWords = []string{"Test", "Alpha", "Sans", "Serif", "Mono", "Display", "Text", "Neue", "Bold", "Light", "Pro", "Grotesk", "Semi Bold", "Italic", "X", "Größe", "Ünïcode", "字体", "𝔘𝔫𝔦", "a-b", "(c)", "[x]", "100%", "A/B", "<tag>", "{q}"}
